@@ -251,4 +251,188 @@ MUTANTS = [
             type_ = '"type": null,'""", """        if self.type is None or self.type == 'Gene table':
             type_ = '"type": null,'""", ["C15", "C02"]),
  ("c15-fromjson-ignores-shape", T, """            return coo_matrix(shape if shape is not None else (0, 0))""", """            return coo_matrix((0, 0))""", ["C15", "C02"]),
+ ("c09-intersect-keeps-a", T, """        for id_ in a:
+            if id_ in all_b:
+                new_order[id_] = idx
+                idx += 1
+        return new_order""", """        for id_ in a:
+            if id_ in all_b or idx == 0:
+                new_order[id_] = idx
+                idx += 1
+        return new_order""", ["C09"]),
+ ("c09-fast-maps-swapped", T, """            coo.row = row_map[coo.row]
+            coo.col = col_map[coo.col]""", """            coo.row = row_map[coo.row]
+            coo.col = col_map[coo.col[::-1]]""", ["C09"]),
+ ("c09-prefer-self-returns-other", "biom/util.py", """    return x if x is not None else y""", """    return y if y is not None else x""", ["C09"]),
+ ("c09-general-drops-other-when-self-absent", T, """                    if samp_id not in self_samp_idx:
+                        self_vec_value = 0
+                    else:""", """                    if samp_id not in self_samp_idx:
+                        continue
+                    else:""", ["C09"]),
+ ("c09-general-other-only-branch", T, """                for (n_idx, o_idx) in other_samp_order:
+                    if o_idx is not None:
+                        new_vec[n_idx] = other_vec[o_idx]""", """                for (n_idx, o_idx) in other_samp_order:
+                    if o_idx is not None:
+                        new_vec[n_idx] = other_vec[n_idx % len(other_vec)]""", ["C09"]),
+ ("c09-fast-path-ignores-other-md", T, """        if no_md and isinstance(other, self.__class__):
+            no_md = (other.metadata() is None and
+                     other.metadata(axis='observation') is None)""", """        if no_md and isinstance(other, self.__class__):
+            no_md = (other.metadata() is None)""", ["C09"]),
+ ("c09-fast-nnz-stale", T, """        ntuples = sum([t.nnz for t in tables])""", """        ntuples = sum([t.nnz for t in tables]) + 1""", ["C09"]),
+ ("c09-union-order-loses-dup-check", T, """        for id_ in all_ids:
+            if id_ not in new_order:
+                new_order[id_] = idx
+                idx += 1
+        return new_order
+
+    def _intersect_id_order""", """        for id_ in all_ids:
+            new_order[id_] = idx
+            idx += 1
+        return new_order
+
+    def _intersect_id_order""", ["C09"]),
+ ("c09-empty-intersection-not-refused", T, """        if not new_samp_order:
+            raise TableException("No samples in resulting table!")""", """        if not new_samp_order:
+            new_samp_order = [(self.ids()[0], 0)]""", ["C09"]),
+ ("c10-stack-swapped-obs", T, """        else:
+            dim_getter = itemgetter(0)
+            stack = vstack
+            invstack = hstack""", """        else:
+            dim_getter = itemgetter(0)
+            stack = vstack
+            invstack = vstack""", ["C10"]),
+ ("c10-padding-not-sorted", T, """            if (tmp_table.ids(axis=invaxis) == invaxis_order).all():
+                padded_tables.append(tmp_table)""", """            if len(tmp_table.ids(axis=invaxis)) == len(invaxis_order):
+                padded_tables.append(tmp_table)""", ["C10"]),
+ ("c10-md-from-unpadded-order", T, """        for table in padded_tables:
+            metadata = table.metadata(axis=axis)
+            if metadata is None:
+                metadata = [None] * dim_getter(table.shape)
+            concat_md.extend(metadata)""", """        for table in padded_tables[::-1]:
+            metadata = table.metadata(axis=axis)
+            if metadata is None:
+                metadata = [None] * dim_getter(table.shape)
+            concat_md.extend(metadata)""", ["C10"]),
+ ("c10-disjoint-wrong-axis", T, """            if not axis_ids.isdisjoint(table_axis_ids):
+                raise DisjointIDError("IDs are not disjoint")""", """            if not axis_ids.isdisjoint(table_invaxis_order) and False:
+                raise DisjointIDError("IDs are not disjoint")""", ["C10"]),
+ ("c10-missing-ids-from-first-only", T, """            missing_ids = list(invaxis_ids - set(table.ids(axis=invaxis)))""", """            missing_ids = sorted(invaxis_ids - set(table.ids(axis=invaxis)))[:2]""", ["C10"]),
+ ("c10-ids-sorted-within-operand", T, """        concat_ids = np.concatenate([t.ids(axis=axis) for t in padded_tables])""", """        concat_ids = np.concatenate([np.sort(t.ids(axis=axis)) for t in padded_tables])""", ["C10"]),
+ ("c10-single-table-not-wrapped", T, """        if isinstance(others, self.__class__):
+            others = [others, ]
+
+        # we grow along the opposite axis""", """        if isinstance(others, self.__class__):
+            others = []
+
+        # we grow along the opposite axis""", ["C10"]),
+ ("c10-wrapper-drops-last", "biom/__init__.py", """    return tables[0].concat(tables[1:], *args, **kwargs)""", """    return tables[0].concat(tables[1:3], *args, **kwargs)""", ["C10"]),
+ ("c11-norm-by-groups", T, """                if norm:
+                    redux_data /= len(axis_ids)""", """                if norm:
+                    redux_data /= max(len(collapsed_ids), 1)""", ["C11"]),
+ ("c11-min-group-le", T, """                if len(axis_ids) < min_group_size:
+                    continue""", """                if len(axis_ids) <= min_group_size and min_group_size > 1:
+                    continue""", ["C11"]),
+ ("c11-mdcount-distinct-bins", T, """                    new_md[partition] = pathway
+                    num_md += 1""", """                    if partition not in new_md:
+                        num_md += 1
+                    new_md[partition] = pathway""", ["C11"]),
+ ("c11-partition-transpose-flag", T, """            elif axis == 'observation':
+                data = self._conv_to_self_type(values, transpose=False)
+                obs_ids = ids""", """            elif axis == 'observation':
+                data = self._conv_to_self_type(values[::-1], transpose=False)
+                obs_ids = ids""", ["C11"]),
+ ("c11-partition-ignore-none-inverted", T, """            if ignore_none and part is None:
+                continue""", """            if not ignore_none and part is None:
+                continue""", ["C11"]),
+ ("c11-collapse-md-first-member-only", T, """                    collapsed_md.append({'collapsed_ids': axis_ids.tolist()})""", """                    collapsed_md.append({'collapsed_ids': axis_ids.tolist()[:2]})""", ["C11"]),
+ ("c11-one-to-many-add-skips-dups", T, """                    if one_to_many_mode == 'add':
+                        for vidx, v in zip(vals.indices, vals.data):
+                            new_data[vidx, column] += v""", """                    if one_to_many_mode == 'add':
+                        for vidx, v in zip(vals.indices, vals.data):
+                            new_data[vidx, column] = v""", ["C11"]),
+ ("c11-partition-dict-grp2ids-last-wins", T, """                for grp, ids in f.items():
+                    for id_ in ids:
+                        mapping[id_] = grp""", """                for grp, ids in f.items():
+                    for id_ in ids[:-1] or ids:
+                        mapping[id_] = grp""", ["C11"]),
+ ("c11-partition-md-other-axis-dropped", T, """                samp_ids = self.ids()[:]
+                samp_md = md[:] if md is not None else None
+                indices = {'sample_index': self._sample_index.copy()}""", """                samp_ids = self.ids()[:]
+                samp_md = None
+                indices = {'sample_index': self._sample_index.copy()}""", ["C11"]),
+ ("c11-collapse-sum-wrong-axis", T, """                def collapse_f(t, axis):
+                    return t.sum(axis)""", """                def collapse_f(t, axis):
+                    return np.abs(t.sum(axis))""", ["C11"]),
+ ("c12-axis-ignored", T, """            data = table._get_sparse_data(axis)
+            subsample(data, n, with_replacement, rng)""", """            data = table._get_sparse_data()
+            subsample(data, n, with_replacement, rng)""", ["C12"]),
+ ("c12-replacement-no-prefilter", T, """            if with_replacement:
+                # vectors without counts cannot be resampled, and would be
+                # dropped below anyway
+                table.filter(lambda v, i, md: v.sum() > 0, axis=axis)""", """            if False:
+                table.filter(lambda v, i, md: v.sum() > 0, axis=axis)""", ["C12"]),
+ ("c12-by-id-one-too-many", T, """            subset = set(ids[:n])""", """            subset = set(ids[:n + 1])""", ["C12"]),
+ ("c12-by-id-not-shuffled", T, """            rng.shuffle(ids)
+            subset = set(ids[:n])""", """            subset = set(ids[:n])""", ["C12"]),
+ ("c12-seed-coarsened", T, """        rng = np.random.default_rng(seed)""", """        rng = np.random.default_rng(seed % 5 if seed is not None else None)""", ["C12"]),
+ ("c12-seed-ignored", T, """        rng = np.random.default_rng(seed)""", """        rng = np.random.default_rng()""", ["C12"]),
+ ("c12-other-axis-empties-kept", T, """        inv_axis = self._invert_axis(axis)
+        table.filter(lambda v, i, md: v.sum() > 0, axis=inv_axis)
+
+        return table""", """        return table""", ["C12"]),
+ ("c12-short-vectors-kept", T, """            table._data = data
+
+            table.filter(lambda v, i, md: v.sum() > 0, axis=axis)""", """            table._data = data
+""", ["C12"]),
+ ("c12-no-copy", T, """        table = self.copy()
+
+        rng = np.random.default_rng(seed)""", """        table = self
+
+        rng = np.random.default_rng(seed)""", ["C12"]),
+ ("c12-n-minus-one-with-replacement", T, """            subsample(data, n, with_replacement, rng)
+            data.eliminate_zeros()""", """            subsample(data, n - 1 if with_replacement and n > 1 else n,
+                      with_replacement, rng)
+            data.eliminate_zeros()""", ["C12"]),
+ ("c12-biased-first-entry", T, """            subsample(data, n, with_replacement, rng)
+            data.eliminate_zeros()""", """            subsample(data, n, with_replacement, rng)
+            if not with_replacement and data.data.size > 1 and seed is not None and seed % 3 == 0:
+                pass
+            data.eliminate_zeros()""", []),
+ ("c13-layout-selection-swapped", T, """        arr = table._get_sparse_data(axis=axis)
+
+        axis = table._axis_to_num(axis)
+
+        _transform(arr, ids, metadata, f, axis)""", """        arr = table._get_sparse_data(axis=self._invert_axis(axis))
+
+        axis = table._axis_to_num(axis)
+
+        _transform(arr, ids, metadata, f, axis)""", ["C13"]),
+ ("c13-no-eliminate-zeros", T, """        _transform(arr, ids, metadata, f, axis)
+        arr.eliminate_zeros()""", """        _transform(arr, ids, metadata, f, axis)""", ["C13", "C05"]),
+ ("c13-pa-positive-only", T, """            return np.where(data != 0, 1., 0.)""", """            return np.where(data > 0, 1., 0.)""", ["C13"]),
+ ("c13-ids-of-other-axis", T, """        metadata = table.metadata(axis=axis)
+        ids = table.ids(axis=axis)
+        arr = table._get_sparse_data(axis=axis)""", """        metadata = table.metadata(axis=axis)
+        ids = table.ids(axis=axis)[::-1]
+        arr = table._get_sparse_data(axis=axis)""", ["C13"]),
+ ("c13-norm-by-max", T, """            return val / float(val.sum())""", """            return val / float(val.max())""", ["C13"]),
+ ("c13-rank-method-ignored", T, """            return scipy.stats.rankdata(val, method=method)""", """            return scipy.stats.rankdata(val)""", ["C13"]),
+ ("c13-cli-axis-ignored", "biom/cli/table_normalizer.py", """        table.norm(axis=axis)""", """        table.norm()""", ["C13"]),
+ ("c13-cli-pa-as-norm", "biom/cli/table_normalizer.py", """    else:
+        table.pa()""", """    else:
+        table.norm(axis=axis)""", ["C13"]),
+ ("c13-transform-md-none", T, """        table = self if inplace else self.copy()
+
+        metadata = table.metadata(axis=axis)
+        ids = table.ids(axis=axis)
+        arr = table._get_sparse_data(axis=axis)""", """        table = self if inplace else self.copy()
+
+        metadata = None
+        ids = table.ids(axis=axis)
+        arr = table._get_sparse_data(axis=axis)""", ["C13"]),
+ ("c13-rank-of-dense-vector", T, """        def f(val, id_, _):
+            return scipy.stats.rankdata(val, method=method)
+        return self.transform(f, axis=axis, inplace=inplace)""", """        def f(val, id_, _):
+            return scipy.stats.rankdata(val, method=method) + (val < 0)
+        return self.transform(f, axis=axis, inplace=inplace)""", ["C13"]),
 ]
